@@ -367,6 +367,11 @@ def _normal_form_by_execution(ctx, ck, rules, map_only: bool = False) -> bool:
             ([scal('k0'), inv(A), A], 'scalar-only'),
             ([inv(A), scal('k0'), A], 'scalar-only'),
         ]
+        # a chain made of identities only: everything is discarded, the result is the identity on the input structure
+        def idn():
+            return Obj(ident, {'_in_structure': small, '__out__': small, 'name': 'I'})
+
+        cases += [([idn(), idn()], []), ([idn(), idn(), idn()], [])]
         tr_cls = table.find(f'{CORE}.TransposeOperator')
         if tr_cls is not None:
             def tr(o):
